@@ -293,6 +293,10 @@ func init() {
 			in.sched().boundSet = true
 			return nil
 		},
+		// Tier: 0 in the quick tier, 1 in the thorough tier (harnesses widen symbolic ranges there)
+		"Tier": func(in *Interp, _ *ssa.Function, a []Value, c *frame) Value {
+			return bv(64, uint64(in.env.tierN))
+		},
 		"ThreadID": func(in *Interp, _ *ssa.Function, a []Value, c *frame) Value {
 			if in.cur == nil {
 				return bv(64, 0)
